@@ -190,6 +190,37 @@ pub fn run(o: &DetectOpts) -> serde_json::Value {
                     c.settings = default_settings();
                 }
             }
+            if (o.focus == "C09" || o.focus == "C13") && rng.chance(1, 6) {
+                // a multi-byte candidate that is probed FIRST (declared), does not end detection (noisy: chaos above 10%), and whose
+                // decoded text is SHORTER than the window steps*chunk_size while the bytes are longer: anything the first
+                // candidate leaves behind (window parameters, counters) would then show in the candidates probed after it
+                let st = rng.range(2, 8);
+                let ch = rng.range(64, 512);
+                let w = st * ch;
+                let enc = *rng.pick(&["shift_jis", "euc-kr", "big5", "gbk", "euc-jp", "utf-8", "gb18030"]);
+                let m = rng.range(40, 120).min(w / 3);
+                let a = w.saturating_sub(m + rng.range(1, m.max(2)));
+                let wide: Vec<char> = "\u{65e5}\u{672c}\u{8a9e}\u{306e}\u{30c6}\u{30ad}\u{30b9}\u{30c8}\u{d55c}\u{ad6d}\u{c5b4}\u{4e2d}\u{6587}\u{5b57}\u{7b26}\u{25a0}".chars().collect();
+                let mut t = format!("<?xml version=\"1.0\" encoding=\"{}\"?>\n", enc);
+                let words = ["the", "quick", "brown", "fox", "jumps", "over", "lazy", "dog", "feed", "entry", "title", "link"];
+                while t.len() < a {
+                    let wd: &str = *rng.pick(&words);
+                    t.push_str(wd);
+                    t.push(if rng.chance(1, 7) { '\u{1}' } else { ' ' });
+                }
+                t.truncate(a);
+                for k in 0..m { t.push(*rng.pick(&wide)); if k % 9 == 8 { t.push(' '); } }
+                if let Some(b) = encode_text(&t, enc) {
+                    if b.len() > w {
+                        c.bytes = b;
+                        c.kind = "mb-first-short-text".into();
+                        c.settings = default_settings();
+                        c.settings.steps = st;
+                        c.settings.chunk_size = ch;
+                        c.settings.threshold = ordered_float::OrderedFloat(*rng.pick(&[0.2f32, 0.3, 0.5, 1.0]));
+                    }
+                }
+            }
             if o.focus == "C05" && c.settings.include_encodings.is_empty() && c.settings.exclude_encodings.is_empty() {
                 // filter-heavy stream: random labels in any spelling, sometimes an unknown one
                 let n = rng.range(1, 8);
